@@ -225,18 +225,32 @@ def model_lines(case, built):
         ids = built.info["ids"]
         if t.r["mode"] == "descriptor":
             names = [f"{hexs(n)}={ids[n]}" for n in t.files if n != t.descriptor_name]
-            return core.file_lines(built.files) + [f"vmdk.desc.stream {a} {ids[t.descriptor_name]} {len(names)} " + " ".join(names) + " " + toks]
+            tail = f"{a} {ids[t.descriptor_name]} {len(names)} " + " ".join(names) + " " + toks
+            return core.file_lines(built.files) + ["vmdk.desc.stream " + tail, "vmdk.desc.concatcheck " + tail]
         fids = [ids[n] for n in t.order]
-        return core.file_lines(built.files) + [f"vmdk.stream {a} {len(fids)} " + " ".join(fids) + " " + toks]
+        tail = f"{a} {len(fids)} " + " ".join(fids) + " " + toks
+        return core.file_lines(built.files) + ["vmdk.stream " + tail, "vmdk.concatcheck " + tail]
     st = built.info["tokens"]
-    return core.file_lines(built.files) + [f"hdd.stream {a} {len(st)} " + " ".join(st) + " " + toks]
+    # second line (all disk families): the executable hypotheses of vmdk_concat_read_correct / storage_concat_read_correct
+    # (layout contiguous / tiling, every extent inside its own read theorem, size = Σ) and the model's answers compared
+    # with the pointwise specification `concat parts` — an instance of the theorem on this case
+    tail = f"{a} {len(st)} " + " ".join(st) + " " + toks
+    return core.file_lines(built.files) + ["hdd.stream " + tail, "hdd.concatcheck " + tail]
 
 
 def model_parse(case, built, out):
     if case["fam"] == "line":
         return {"answers": list(out), "wf": True}
     ans = core.parse_stream_answer(out[0]) if out else None
-    return {"answers": ans, "wf": bool(ans) and ans != ["E"]}
+    chk = out[1].split() if len(out) > 1 and out[1] else []
+    if chk and chk[0] == "ok":
+        wf = "wf=1" in chk
+        marks = [m for m in chk[1:] if m in ("=", "!", "?")]
+        if wf and ("!" in marks or len(marks) != len(ans or [])):
+            # inside the theorem's hypotheses the model must equal the specification: report as a model difference
+            return {"answers": ["SPEC-MISMATCH"] + marks, "wf": wf, "spec_checked": len(marks)}
+        return {"answers": ans, "wf": wf, "spec_checked": len(marks) if wf else 0, "given_in_order": "given_in_order=1" in chk}
+    return {"answers": ans, "wf": False}
 
 
 def nontrivial(case, built, model):
